@@ -20,9 +20,9 @@ def run(ctx, args):
     d = ctx.specdir("Mint")
     trace = os.path.join(ctx.scratch, "trace.ndjson")
     env = {"VERIF_TRACE": trace,
-           "VERIF_BATCHES": 2000 if quick else 81000,
-           "VERIF_MULTIS": 80 if quick else 1500,
-           "VERIF_VECTORS": 60 if quick else 2200}
+           "VERIF_BATCHES": 1500 if quick else 40000,
+           "VERIF_MULTIS": 60 if quick else 800,
+           "VERIF_VECTORS": 42 if quick else 1200}
 
     def mc(tla, cfg, workers=3, **kw):
         return lambda: ctx.tlc_mc(d, tla, cfg, workers=workers, timeout=2400, xss=True, **kw)
@@ -34,7 +34,7 @@ def run(ctx, args):
           mc("MC_MintDist.tla", "MC_MintDist_Witness.cfg", workers=1, expect_violation="Witness", count=False),
           mc("MC_MintDist.tla", "MC_MintDist_WitnessRefused.cfg", workers=1, expect_violation="WitnessRefused", count=False)]
     if not quick:
-        e3 += [mc("MC_Mint.tla", "MC_Mint_w4.cfg")]
+        e3 += [mc("MC_Mint.tla", "MC_Mint_w4.cfg"), mc("MC_MintDist.tla", "MC_MintDist_n5.cfg")]
 
     def go():
         ctx.go_harness("kernel", "^TestVerifMint$", env=env, timeout=2400)
@@ -48,9 +48,9 @@ def run(ctx, args):
         rest = [e for e in events if e["ev"] not in ("init", "batch")]
         ctx.log("recorded %d schedule events, %d multi/dist/build events" % (len(sched), len(rest)))
         a1 = ex.submit(validate_parallel, ctx, d, "Trace_Mint.tla", "Trace_Mint_full.cfg", "Trace_Mint_monitor.cfg",
-                       sched, "C25 mint schedule", 1)
+                       sched, "C25 mint schedule", 1, True, 3600)
         acc = validate_parallel(ctx, d, "Trace_Mint.tla", "Trace_Mint_full.cfg", "Trace_Mint_monitor.cfg",
-                                rest, "C25 mint multi/distribution", workers=4 if quick else 10)
+                                rest, "C25 mint multi/distribution", workers=4 if quick else 10, timeout=3600)
         acc += a1.result()
         for f in futs:
             f.result()
@@ -69,7 +69,7 @@ def run(ctx, args):
                 "distinct = distinct recorded events")
     ctx.samples = [{k: v for k, v in e.items() if k not in ("sizes",)} for e in rest if e["ev"] in ("multi", "build")][:3]
     ctx.assumptions += [
-        "the schedule is driven up to the last batch with a positive amount (year 221); beyond it mintMultiBatchesSize refuses (Integer.Add of a zero amount) and is not driven",
+        "every batch 1..horizon is driven (quick 1500, thorough 40000 = 109 years); multi ranges reach the last batch with a positive amount (year 221); beyond it mintMultiBatchesSize refuses (Integer.Add of a zero amount) and is not driven",
         "work vectors are seeded samples; extreme outliers are injected at the store reader (ListNodeWorks) because they cannot be produced by a feasible number of WriteRoundWork calls",
         "the readiness precondition (validateWorksAndSpacesAggregator) is satisfied by construction for every vector",
     ]
